@@ -65,31 +65,53 @@ Definition anchor_position (ops : oplist) (anchor : option str) (anchor_binary :
               end
   end.
 
+(* what happens once `position` is known *)
+Definition insert_with (ops : oplist) (pos : nat) (new : entry) (create_group : bool) : oplist :=
+  if create_group then
+    if Nat.eqb pos (length ops)
+    then insert_at (S pos) new (ops ++ [Sep])                 (* append `()`; position += 1 *)
+    else let pos' := advance is_sep ops pos in
+         insert_at pos' new (insert_at pos' Sep ops)
+  else insert_at pos new ops.
+
 (* None = ValueError *)
 Definition insert_operator (ops : oplist) (anchor : option str) (anchor_binary : bool)
            (new : entry) (create_group : bool) : option oplist :=
   match anchor_position ops anchor anchor_binary with
   | None => None
-  | Some pos =>
-      if create_group then
-        if Nat.eqb pos (length ops)
-        then Some (insert_at (S pos) new (ops ++ [Sep]))
-        else let pos' := advance is_sep ops pos in
-             Some (insert_at pos' new (insert_at pos' Sep ops))
-      else Some (insert_at pos new ops)
+  | Some pos => Some (insert_with ops pos new create_group)
   end.
 
 (* groups: the list split at the `()` separators; the k-th group (from 0) gets
    precedence k+1 in _build_operator_table *)
+Definition consg (e : entry) (gs : list (list entry)) : list (list entry) :=
+  match gs with
+  | g :: t => (e :: g) :: t
+  | [] => [[e]]
+  end.
 Fixpoint groups (ops : oplist) : list (list entry) :=
   match ops with
   | [] => [[]]
   | Sep :: r => [] :: groups r
-  | e :: r => match groups r with
-              | g :: gs => (e :: g) :: gs
-              | [] => [[e]]
-              end
+  | e :: r => consg e (groups r)
   end.
+
+(* the element insert_operator looks for *)
+Definition is_anchor (a : str) (binary : bool) (e : entry) : bool :=
+  match e with
+  | Sep => false
+  | Op s k _ => str_eqb s a && (if binary then is_binary k else is_unary k)
+  end.
+Definition has_anchor (a : str) (binary : bool) (g : list entry) : bool := existsb (is_anchor a binary) g.
+
+(* an entry that gives its group a precedence level (NAME_VALUE_PAIR does not) *)
+Definition has_role (e : entry) : bool :=
+  match e with
+  | Op _ KNameValue _ | Sep => false
+  | _ => true
+  end.
+(* no group is empty of roles: then the levels 1..n are all in use *)
+Definition groups_ok (ops : oplist) : Prop := Forall (fun g => existsb has_role g = true) (groups ops).
 
 (* ---------------------------------------------------------------- _name_generator *)
 Fixpoint name_digits (fuel : nat) (t : Z) : str :=
